@@ -305,6 +305,18 @@ def run(tier):
                     got = fn(mk(a), mk(b))
                     if not isinstance(got, OrderedSet) or list(got) != want:
                         run.violation({"helper": nm, "a": a, "b": b, "got": list(got), "want": want}, f"{nm} result/order")
+                # OrderedSet arguments: same result, the arguments are left alone and the result is a set of its own
+                for mka, mkb in ((OrderedSet, list), (list, OrderedSet), (OrderedSet, OrderedSet)):
+                    xa, xb = mka(a), mkb(b)
+                    before = (list(xa), list(xb))
+                    got = fn(xa, xb)
+                    if not isinstance(got, OrderedSet) or list(got) != want:
+                        run.violation({"helper": nm, "a": a, "b": b, "argument_kinds": [mka.__name__, mkb.__name__], "got": list(got), "want": want}, f"{nm} result/order with OrderedSet arguments")
+                        continue
+                    got.add("__fresh__")
+                    got.discard(elems[0])
+                    if (list(xa), list(xb)) != before:
+                        run.violation({"helper": nm, "a": a, "b": b, "argument_kinds": [mka.__name__, mkb.__name__], "arguments_before": before, "arguments_after": [list(xa), list(xb)]}, f"{nm} changed one of its OrderedSet arguments (or returned it, so that changing the result changes the argument)")
                 run.outcome((nm, tuple(want)))
             if a != list(a) or b != list(b):
                 pass
